@@ -35,7 +35,7 @@ func TestC17Batches(t *testing.T) {
 		}
 	})
 	rapid.Check(t, func(rt *rapid.T) {
-		kind := rapid.SampledFrom([]string{"create", "delete", "cleanup", "reconcile-create", "reconcile-cleanup"}).Draw(rt, "kind")
+		kind := rapid.SampledFrom([]string{"create", "delete", "cleanup", "reconcile-create", "reconcile-cleanup", "reconcile-mixed", "reconcile-mixed"}).Draw(rt, "kind")
 		n := rapid.SampledFrom([]int{2, 3, 5, 8, 16, 33, 64}).Draw(rt, "size")
 		mode := rapid.SampledFrom([]string{"none", "some", "some", "all"}).Draw(rt, "failing")
 		failing := map[int]bool{}
@@ -60,8 +60,12 @@ func TestC17Batches(t *testing.T) {
 		st.RollingUpdate.MaxParallelPodCreation = &mp
 		st.RollingUpdate.SlowStartAdditiveIncrease = gen.ParseIntOrPercent("1000")
 		st.RollingUpdate.MaxUnavailable = gen.ParseIntOrPercent("100%")
-		p := prepare(c, "ns1", "foo", st, nil, "A")
-		rs := c.ERS("ns1", p.RS['A'])
+		word := "A"
+		if kind == "reconcile-mixed" {
+			word = "AB" // an old template to delete pods of
+		}
+		p := prepare(c, "ns1", "foo", st, nil, word)
+		rs := c.ERS("ns1", p.RS[word[len(word)-1]])
 		// failing set by node name (pod creations) / pod name (deletions)
 		failNode := map[string]bool{}
 		for i := range failing {
@@ -135,6 +139,41 @@ func TestC17Batches(t *testing.T) {
 			got := oracle.RSCondTrue(&post.Status, edsv1.ConditionTypeReconcileError)
 			if got != (injected > 0) {
 				fail("C17/conditions/ReconcileError", fmt.Sprintf("%d pod creations failed in the sync (err=%v) but ReconcileError=%v", injected, r.Err, got))
+			}
+		case "reconcile-mixed":
+			// one sync that both deletes outdated pods (even nodes) and creates missing ones (odd nodes); the failing
+			// set is drawn over all nodes, so sometimes only deletions, only creations, both or none fail
+			side := rapid.SampledFrom([]string{"deletions-only", "creations-only", "both"}).Draw(rt, "failingSide")
+			for i, nd := range nodes {
+				if i%2 == 0 {
+					p.addPod(nd.Name, 'A', PSAvailable, time.Minute)
+					if side == "creations-only" {
+						delete(failNode, nd.Name)
+					}
+				} else if side == "deletions-only" {
+					delete(failNode, nd.Name)
+				}
+			}
+			c.Advance(time.Minute)
+			r := c.Reconcile(sim.ActorERS, "ns1", rs.Name)
+			post := c.ERS("ns1", rs.Name)
+			got := oracle.RSCondTrue(&post.Status, edsv1.ConditionTypeReconcileError)
+			dels, crs := 0, 0
+			for _, call := range r.Calls {
+				if call.Kind == "Pod" && call.Fault != sim.FaultNone {
+					if call.Verb == "delete" {
+						dels++
+					} else if call.Verb == "create" {
+						crs++
+					}
+				}
+			}
+			if got != (dels+crs > 0) {
+				which := "deletions"
+				if dels == 0 {
+					which = "creations"
+				}
+				fail("C17/conditions/ReconcileError/mixed-sync-failed-"+which, fmt.Sprintf("one sync: %d pod deletions and %d pod creations failed but ReconcileError=%v", dels, crs, got))
 			}
 		case "reconcile-cleanup":
 			// pods on nodes that are about to become ineligible: the sync cleans them up in parallel
